@@ -280,13 +280,14 @@ func Harness_C16_mtrain() {
 	vr.Assume(len(other) != 4)
 	tid := vr.Str("trip")
 	preserve := vr.Bool("preserve")
+	sid2 := vr.OneOf("stop2", "M18N", "M12S", "M19N") // a second stop of the same trip, affected or not
 	msg := &gtfsrt.FeedMessage{Header: &gtfsrt.FeedHeader{GtfsRealtimeVersion: &ver}, Entity: []*gtfsrt.FeedEntity{
 		{Id: &eid, TripUpdate: &gtfsrt.TripUpdate{Trip: &gtfsrt.TripDescriptor{TripId: &tid, RouteId: &route},
-			StopTimeUpdate: []*gtfsrt.TripUpdate_StopTimeUpdate{{StopId: &sid}, {StopId: &other}, {}}}}}}
+			StopTimeUpdate: []*gtfsrt.TripUpdate_StopTimeUpdate{{StopId: &sid}, {StopId: &other}, {}, {StopId: &sid2}}}}}}
 	with, err1 := gtfs.ParseRealtime(vr.Marshal(msg), &gtfs.ParseRealtimeOptions{Extension: nycttrips.Extension(nycttrips.ExtensionOpts{PreserveMTrainPlatformsInBushwick: preserve})})
 	without, err2 := gtfs.ParseRealtime(vr.Marshal(msg), &gtfs.ParseRealtimeOptions{})
 	vr.Assert("C16.returns", err1 == nil && err2 == nil && with != nil && without != nil)
-	if with == nil || without == nil || len(with.Trips) != 1 || len(without.Trips) != 1 || len(with.Trips[0].StopTimeUpdates) != 3 {
+	if with == nil || without == nil || len(with.Trips) != 1 || len(without.Trips) != 1 || len(with.Trips[0].StopTimeUpdates) != 4 {
 		vr.Assert("C16.mtrain.shape", false)
 		return
 	}
@@ -300,7 +301,19 @@ func Harness_C16_mtrain() {
 	}
 	got := with.Trips[0].StopTimeUpdates[0].StopID
 	vr.Assert("C16.mtrain.swap", got != nil && *got == want)
+	want2 := sid2
+	if !preserve && route == "M" {
+		switch sid2 {
+		case "M18N":
+			want2 = "M18S"
+		case "M12S":
+			want2 = "M12N"
+		}
+	}
+	got2 := with.Trips[0].StopTimeUpdates[3].StopID
+	vr.Assert("C16.mtrain.swap.second", got2 != nil && *got2 == want2)
 	// nothing else is touched
+	with.Trips[0].StopTimeUpdates[3].StopID = without.Trips[0].StopTimeUpdates[3].StopID
 	with.Trips[0].StopTimeUpdates[0].StopID = without.Trips[0].StopTimeUpdates[0].StopID
 	vr.Assert("C16.mtrain.nothing_else", vr.DeepEq(with.Trips, without.Trips))
 }
